@@ -408,7 +408,11 @@ def _strip_size_one_fast_path(stmts):
         return stmts
     body = list(g.body)
     if g.orelse:
-        return stmts
+        # the two-armed form (what N38 makes of the guard clause): if <size> == 1: <fast loop>  else: <general code>, nothing after it
+        if len(rest) != 1 or not (len(body) == 1 and isinstance(body[0], ast.For)):
+            return stmts
+        body = body + [ast.Return(value=None)]
+        rest = [g] + list(g.orelse)
     if not (len(body) == 2 and isinstance(body[0], ast.For) and isinstance(body[1], ast.Return) and body[1].value is None):
         return stmts
     lp = body[0]
